@@ -258,7 +258,8 @@ def run(ctx):
     ctx.floor('C09.3', len(ret_paths), 9, 'returning paths of extract_message (one loop iteration)')
     R_ARGS = r"_fast_access\(\w+, 'wl_closure\.args'\)"
     R_TY = r"_fast_access\(_fast_access\(\w+, 'wl_closure\.message'\), 'wl_message\.types'\)\[0\]"
-    nio = f.params()[3] if len(f.params()) > 3 else 'new_id_is_actually_an_object'
+    from .common import cparams as _cparams9
+    nio = _cparams9(f)[3] if len(f.params()) > 3 else 'new_id_is_actually_an_object'
 
     def canon(t):
         t = re.sub(r'\[len\(\w+\)\]', '[0]', t)      # one iteration: nothing has been appended yet
